@@ -3,6 +3,7 @@ import Driver.TI
 import Driver.TC
 import Driver.Spec
 import Driver.Interp
+import Driver.Disp
 
 open Osu.Driver
 
@@ -18,6 +19,7 @@ def handle (st : DState) (line : String) : DState × String :=
   | "tc" :: rest => (st, TC.step rest)
   | "spec" :: rest => (st, Spec.step rest)
   | "interp" :: rest => (st, Interp.step rest)
+  | "disp" :: rest => (st, Disp.step rest)
   | _ => (st, "bad-op")
 
 partial def loop (h : IO.FS.Stream) (out : IO.FS.Stream) (st : DState) : IO Unit := do
